@@ -466,6 +466,36 @@ UNDECIDABLE_SEEDS = (
     "C13j",   # per-array merge strategy table
     "C14k",   # vendored euler_from_matrix edited (assumption A4, as C14d)
     "C14p",   # same: middle angle rewritten with asin / acos
+    # wave 8 (optimisations): a fast path / vectorised re-implementation
+    # whose agreement with the code it replaces is arithmetic or search
+    # semantics the term language does not model. The check named in the
+    # seed's `checked_by` (default: its own property) refuses to decide.
+    "C01t",   # association by np.searchsorted (C05.3 shared clause)
+    "C01u",   # rotation angles from one batched computation (C01.3)
+    "C01v",   # motion filter with precomputed running sums (C01.5 wiring)
+    "C02t",   # all-pairs path search by np.searchsorted (C10, via checked_by)
+    "C02v",   # batched angle / acos-of-trace so3_log_angle (C02.6, C09.4)
+    "C04v",   # vendored quaternion_from_matrix edited (C08.4, A4)
+    "C05t",   # nearest neighbour by midpoints + searchsorted (C05.3)
+    "C05u",   # crop to the common time window before copying (C05.2 form)
+    "C08v",   # propagated transform in a single pass (C08.5)
+    "C09t",   # acos-of-clamped-trace angle (C09.4: conditioning)
+    "C09v",   # closed-form so3_log next to the vendored code (C09.3)
+    "C10u",   # pair search skipped by a precomputed path-length test (C10.6)
+    "C10v",   # angle/all-pairs search on one stacked Rotation (C10.8)
+    "C11u",   # motion filter over precomputed candidate arrays (C11.2)
+    "C12t",   # statistics computed only for overridden get_statistic (C12.1)
+    "C13t",   # merge strategy decided from a size table (C13.2)
+    "C13v",   # loader gained an array-name filter used by evo_res (C13.6)
+    "C14t",   # projection of all poses by array operations (C14.1)
+    "C14u",   # projection skipped for planar-position trajectories (C15.9)
+    "C14v",   # quaternion getter re-implemented (C08.4, via checked_by)
+    "C15t",   # association by np.searchsorted (C05.3, via checked_by)
+    "C15u",   # quaternion getter re-implemented (C08.4, via checked_by)
+    "C17t",   # one directory listing decides which exports need a prompt
+    "C17v",   # prompt hoisted in front of the plot export loop (C17.3)
+    "C20t",   # marker segments from one reshaped pose array (C20.3)
+    "C20v",   # vectorised Euler angles for the default sequence (C20.10)
 )
 
 # behaviour-preserving changes on which a check refuses to decide: the same
@@ -484,6 +514,33 @@ UNDECIDABLE_REFACTORS = {
     "R10_10": ("C10",),  # path increments from a generator with its own
     #                      state (previous pose) feeding a shared greedy
     #                      search: generators with carried state are opaque
+    # wave 8 (behaviour-preserving optimisations, same reasons as the seeds
+    # above: equivalence of the fast form is arithmetic / search semantics)
+    "R01_11": ("C05",),                # searchsorted association, both
+    #                                    neighbours compared (C05.3)
+    "R01_12": ("C01", "C12"),          # batched rotation angles (C01.3)
+    "R02_11": ("C10",),                # all-pairs search by searchsorted
+    "R03_11": ("C03", "C04"),          # covariance as a sum of outer products
+    "R03_12": ("C03", "C04", "C08"),   # memoised identity, copied before use
+    "R04_11": ("C04", "C03"),          # covariance by cumulative sums
+    "R05_11": ("C05",),                # searchsorted + argmin walk-down
+    "R05_12": ("C05", "C01", "C02", "C15"),   # crop before deep copy
+    "R06_11": ("C06", "C07", "C01", "C02"),   # pandas reader with
+    #                                    float_precision='round_trip'
+    "R08_12": ("C08", "C15"),          # single-pass propagated transform
+    "R09_12": ("C09", "C01", "C02", "C10"),   # atan2 form of the angle
+    "R10_11": ("C10",),                # consecutive ids by searchsorted chain
+    "R10_12": ("C10", "C02"),          # early exit on total path length
+    "R12_11": ("C12",),                # statistics table built once
+    "R13_11": ("C13",),                # size table for the merge decision
+    "R14_11": ("C14",),                # vectorised projection
+    "R14_12": ("C08",),                # batched quaternion conversion
+    "R15_11": ("C05",),                # searchsorted association
+    "R15_12": ("C08",),                # batched quaternion conversion
+    "R16_12": ("C03", "C04"),          # outer-product covariance on copies
+    "R17_11": ("C17",),                # directory listing before the prompts
+    "R17_12": ("C17",),                # prompt decided once per export call
+    "R18_11": ("C18",),                # set: keys located by an index list
     "R16_10": ("C13",),  # merge accumulation moved into helpers that iterate
     #                      [r.stats for r in results][1:]: a list built by a
     #                      map and iterated again is not read through to its
